@@ -51,10 +51,10 @@ CHECKS = {
         technique="Rocq proof by nested induction with a cache invariant + proof of unambiguous printing; refutation by vm_compute; model/implementation correspondence inside Coq against onnxruntime on generated expressions"),
     "C13": dict(
         category="proof",
-        text="Proof over an executable model of the patch stack (theories/Patch.v): apply_patches / the plugin ExitStack restore getattr for every observer after every spec list (duplicates), every synchronous fault point, every nesting depth and every sequence of conversions, under the order-sensitive side condition no_inherited_clash and MRO coherence (both proved necessary by vm_compute witnesses); owned attributes are restored exactly with no side condition; _PATCH_STATE ref-counts and the x64 flag are restored for every exit; eager-after-export is REFUTED via the jit trace cache (known finding), and an enter-loop fault in apply_monkey_patches is shown to leak (known finding).",
+        text="Proof over a two-shape executable model of the patch stack (theories/Patch.v; the code shape is probed at run time): since /repo b0781c1 apply_patches, the plugin ExitStack, apply_monkey_patches and any history of conversions restore every own dict EXACTLY, hence getattr for every observer, with no side condition, for all spec lists (duplicates, inheriting targets in any order), all synchronous fault points including inside the apply_monkey_patches enter loop, and all nesting depths; _PATCH_STATE and the x64 flag are restored at every exit; only an asynchronous exception between setattr and the bookkeeping still leaks (witness proved). Eager-after-export is REFUTED via the jit trace cache (known finding). The theorems and refutations of the pre-b0781c1 code (no_inherited_clash / MRO coherence side conditions) are kept as C13_legacy_*.",
         design_ref="DESIGN.md section 4 C13, appendix B.3",
-        note="Model tied per run: 360 synthetic apply_patches cases with a fault at every position, 160 apply_monkey_patches cases (depth 1-3), 72 x64 cases, and the model evaluated on the dumped real spec list (623 specs) predicts exactly the real getattr/own-dict changes. Side conditions evaluated on the real list; real process checked over ~39 conversions (success / failure in trace, lowering, nested body, serialization) with a getattr_static snapshot of 21.9k attributes, user-model leaves, x64, eager probes. Assumptions: single-threaded; no async exception between setattr and append; descriptors/metaclass fall-back outside the model (checked per key).",
-        technique="Rocq proof over a hand-written executable heap/MRO model + differential ties to the running patch machinery + real-process attribute snapshot across conversion histories"),
+        note="Model tied per run: 360 synthetic apply_patches cases with a fault at every position, 160 apply_monkey_patches cases (depth 1-3, enter faults), 72 x64 cases, and the model evaluated on the dumped real spec list (623 specs) predicting exactly the real own-dict/getattr changes (none on the current code). Real process checked over ~39 conversions (success / failure in trace, lowering, nested body, serialization) with a 21.9k-attribute getattr_static snapshot, user-model leaves, x64, eager probes. Assumptions: single-threaded; no async exception between setattr and append; descriptors/metaclass fall-back outside the model (checked per key).",
+        technique="Rocq proof over a hand-written two-shape executable heap/MRO model + runtime shape probe + differential ties to the running patch machinery + real-process attribute snapshot across conversion histories"),
     "C18": dict(
         category="proof",
         text="Proof: Allclose.v models the per-output decision of _run_allclose exactly (count check, NCHW back-transpose, complex re-packing, shape test, floating/non-floating split, numpy isclose with equal_nan over exact rationals, array_equal). For the original code the soundness statement is REFUTED in Coq by two computed witnesses (int32 1 vs float 1.5; int32 5 vs int64 2^32+5) and proved under the exact extra hypothesis; for the repaired comparison now in the tree (compare_fixed) the full statement is proved: match => equal count, and per output equal shape, equal dtype kind, every element within tolerance / exactly equal, plus its contrapositive (every difference is reported). _temporary_x64 is proved to restore the flag for every prior value, body behaviour and exit. Each run ties the real jax2onnx.allclose verdict to the model on ~300 (quick) / ~1200 (thorough) single-perturbation ONNX models and re-checks every 'match' verdict with exact rational arithmetic; the model variant is chosen by probing the witness at run time.",
@@ -73,6 +73,12 @@ CHECKS = {
         design_ref="DESIGN.md section 4 C07",
         note="Trusted: Coq kernel (all theorems closed under the global context); Graph.v semantics of a call node; hand-written abstract site descriptions of harness/c07_programs.py; onnxruntime/eager JAX/onnx.inliner. Tie: Dedup.predict (real key, registry, naming, arities) evaluated in Coq by vm_compute against the ModelProto of 61 (quick) / 735 (thorough) real exports. Property run: decorated export == decorator-stripped export == eager JAX in onnxruntime on 51 fixed programs (one differing component each) and random call sequences with random boundary placement. 5 known findings listed in known_findings.d/C07.json.",
         technique="Rocq proof (inlining simulation under injective renaming; fold invariant of the dedup registry; key adequacy by component analysis with explicit hypotheses and refutation witnesses) + model-vs-export tie by vm_compute + differential execution decorated/plain/JAX"),
+    "C09": dict(
+        category="proof",
+        text="Proof + per-export validation: the float policy (numpy_dtype_to_ir_with_float_policy, _dtype_to_ir, _to_ir_dtype_from_np, both promote helpers, the initializer down-cast, the closed-constant dtype decision, bind_const_for_var, the post-processing promotion rule) and the two jax_enable_x64 context managers are translated from the current source on every run; Coq proves the complete decision table over all 15 numpy dtypes x flag (single mode = identity embedding, DOUBLE iff float64; double mode: float32/float64 -> DOUBLE, never FLOAT, float16/bfloat16/complex64 kept; class and integer width preserved), that to_onnx leaves the process-wide x64 flag unchanged for EVERY behaviour of conversion/post-processing (normal or exceptional exit, nested calls), and that float32->float64 promotion is exact (Flocq). What plugins do ad hoc is checked per export: the validator no_double/first_double (sound and complete over all graphs, nested bodies and function bodies) is evaluated inside Coq on every single-precision export of the shared corpus; double-precision exports are run (ORT / onnx reference evaluator) against the same jaxpr evaluated by JAX x64.",
+        design_ref="DESIGN.md section 4 C09",
+        note="Trusted: Coq kernel (stdlib real/classical/funext axioms only in the 3 Flocq theorems), py2coq + the numpy-dtype extension in tools/units/c09_units.py (tied EXHAUSTIVELY: 1221 rows, 64 manager runs), dumped numpy/onnx_ir tables, onnx2coq (cross-checked per export against an independent Python scan), ORT/onnx reference evaluator and JAX x64 as evaluators. Numeric part in scope only for float64-only x64 jaxprs; a 1e-9..1e-5 deviation is charged to the model only with float32 evidence in the model that a one-ulp perturbation experiment shows to be material. 45 known findings (np.promote_types-based DOUBLE in single exports; hidden float32 attributes/constants in double exports; FLOAT island in atan2; mixed-precision random_bits).",
+        technique="Rocq proof over auto-translated policy code and context managers (finite exhaustive tie) + Flocq format inclusion; validator with soundness/completeness evaluated by vm_compute on converted real exports; differential ORT vs JAX(x64)"),
     "C12": dict(
         category="proof",
         text="Proof: for every teq-respecting function of the plain export, every subset of flagged 4-D inputs/outputs and every input, "
